@@ -69,7 +69,7 @@ def run(ctx):
     # correspondence: acceptor sweep, walk over generated trees, protocol traces from the real MergeDir
     d = os.path.join(ctx.rundir, "corr")
     os.makedirs(d, exist_ok=True)
-    rc, out = C.sh([os.path.join(C.BIN, "c10"), "corr", "-out", d, "-n", str(ctx.scale(250, 2500)), "-maxlen", str(ctx.scale(5, 6))], timeout=3000)
+    rc, out = C.sh([os.path.join(C.BIN, "c10"), "corr", "-out", d, "-n", str(ctx.scale(600, 3000)), "-maxlen", str(ctx.scale(5, 6))], timeout=3000)
     ctx.log("corr", out[-1000:])
     drv = os.path.join(C.BUILD, "ocaml", "c10", "driver")
     if rc == 0 and os.path.exists(drv):
@@ -83,7 +83,7 @@ def run(ctx):
         ctx.cov["correspondence_case_kinds"] = {"acceptor": kinds.get("A", 0), "walk": kinds.get("W", 0), "accepted": kinds.get("V", 0), "traces": kinds.get("T", 0)}
     else:
         ctx.diag.append("correspondence could not run: " + out[-300:])
-    summ = oracle(ctx, ctx.scale(1500, 8000))
+    summ = oracle(ctx, ctx.scale(4000, 20000))
     ctx.add_summary(summ, "MergeDir vs MergeFiles oracle")
     if ctx.tier == "thorough":
         ok, out = C.build_harness(race=True)
